@@ -3,7 +3,7 @@ import os, re, shutil, json, subprocess, struct
 import vcommon as V
 
 NAME = "out.colvars.state"
-TRACE = "trace=access,rename,openat,write,writev,close"
+TRACE = "trace=access,rename,openat,write,writev,close,unlink"
 SIG_SINGLE = "statefile.single-crash-no-complete-state"
 SIG_DOUBLE = "statefile.crash-restart-crash-no-complete-state"
 SIG_IGNERR = "statefile.ignored-io-error-then-crash-no-complete-state"
@@ -54,24 +54,33 @@ def load_scenario(prefix):
 
 def parse_trace(path, name=NAME):
     """-> list of relevant syscalls: dict(op, sys, occ, n, ret) in order; occ = 1-based occurrence of that syscall
-    name among all traced calls of the process"""
+    name among all traced calls of the process.  ops: U unlink(<name>.tmp), B access(<name>.tmp), O open for writing
+    (<name>.tmp; <name> on a tree that writes in place), W write to that fd, C its close, A access(<name>),
+    R rename(<name>, <name>.old), T rename(<name>.tmp, <name>)"""
     occ = {}
     fd = None
     rel = []
+    q, qt = '"%s"' % name, '"%s.tmp"' % name
     for line in open(path, errors="replace"):
         m = re.match(r"(?:\d+\s+)?(\w+)\((.*)", line)
         if not m:
             continue
         sysname, rest = m.group(1), m.group(2)
-        if sysname not in ("access", "rename", "openat", "write", "writev", "close"):
+        if sysname not in ("access", "rename", "openat", "write", "writev", "close", "unlink"):
             continue
         occ[sysname] = occ.get(sysname, 0) + 1
         ret = line.rsplit("=", 1)[-1].strip() if "=" in line else "?"
-        if sysname == "access" and ('"%s"' % name) in rest:
+        if sysname == "unlink" and qt in rest:
+            rel.append({"op": "U", "sys": sysname, "occ": occ[sysname], "ret": ret})
+        elif sysname == "access" and qt in rest:
+            rel.append({"op": "B", "sys": sysname, "occ": occ[sysname], "ret": ret})
+        elif sysname == "access" and q in rest:
             rel.append({"op": "A", "sys": sysname, "occ": occ[sysname], "ret": ret})
-        elif sysname == "rename" and ('"%s"' % name) in rest:
+        elif sysname == "rename" and rest.startswith(qt):
+            rel.append({"op": "T", "sys": sysname, "occ": occ[sysname], "ret": ret})
+        elif sysname == "rename" and rest.startswith(q):
             rel.append({"op": "R", "sys": sysname, "occ": occ[sysname], "ret": ret})
-        elif sysname == "openat" and ('"%s"' % name) in rest and "O_WRONLY" in rest:
+        elif sysname == "openat" and (q in rest or qt in rest) and "O_WRONLY" in rest:
             rel.append({"op": "O", "sys": sysname, "occ": occ[sysname], "ret": ret})
             mm = re.match(r"(\d+)", ret)
             fd = mm.group(1) if mm and "INJECTED" not in ret else None
@@ -90,15 +99,20 @@ def parse_trace(path, name=NAME):
     return rel
 
 
+def save_start(ops):
+    """the op that begins a save: U on a tree with the temporary-file protocol, A on one that writes in place"""
+    return "U" if any(o.startswith("U") for o in ops) else "A"
+
+
 def trace_str(rel):
     return ",".join(r["op"] + (str(r["n"]) if r["op"] == "W" else "") for r in rel)
 
 
-ERRNO = {"A": "EACCES", "R": "EACCES", "O": "EACCES", "W": "ENOSPC", "C": "EIO"}
+ERRNO = {"A": "EACCES", "R": "EACCES", "O": "EACCES", "W": "ENOSPC", "C": "EIO", "U": "EACCES", "B": "EACCES", "T": "EACCES"}
 
 
 class Dir:
-    """a scratch directory holding <NAME> and <NAME>.old"""
+    """a scratch directory holding <NAME>, <NAME>.old and <NAME>.tmp"""
     def __init__(self, path):
         self.path = path
         if os.path.exists(path):
@@ -107,13 +121,13 @@ class Dir:
 
     def files(self):
         out = {}
-        for k, n in (("cur", NAME), ("old", NAME + ".old")):
+        for k, n in (("cur", NAME), ("old", NAME + ".old"), ("tmp", NAME + ".tmp")):
             p = os.path.join(self.path, n)
             out[k] = open(p, "rb").read() if os.path.exists(p) else None
         return out
 
     def put(self, files):
-        for k, n in (("cur", NAME), ("old", NAME + ".old")):
+        for k, n in (("cur", NAME), ("old", NAME + ".old"), ("tmp", NAME + ".tmp")):
             p = os.path.join(self.path, n)
             if os.path.exists(p):
                 os.remove(p)
@@ -180,8 +194,9 @@ def classify_errors(sessions, impl_desc):
             if x != "e" or i >= len(tr):
                 continue
             op = tr[i][0]
-            si = sum(1 for t in tr[:i + 1] if t.startswith("A")) - 1
-            goes_on = op in "AR" and i + 1 < len(tr) and not tr[i + 1].startswith("A")
+            st = save_start(tr)
+            si = sum(1 for t in tr[:i + 1] if t.startswith(st)) - 1
+            goes_on = op in "UBAR" and i + 1 < len(tr) and not tr[i + 1].startswith(st)
             said_ok = 0 <= si < len(results) and results[si] == "ok"
             (ignored if (goes_on or said_ok) else reported).append(op)
     return ignored, reported
@@ -215,8 +230,9 @@ def reference_(vsim, d, sess):
     # split the relevant syscalls per save: writev = written while write_state() runs, write = flushed at close
     saves = []
     cur = None
+    st = save_start([r["op"] for r in rel])
     for r in rel:
-        if r["op"] == "A":
+        if r["op"] == st:
             cur = {"chunks": [], "tail": 0}
             saves.append(cur)
         elif r["op"] == "W" and cur is not None:
@@ -235,7 +251,7 @@ def version_of(sess, i):
 
 def model_line(start_model, sessions):
     """CR line for the model driver: sessions = list of (sess, chunking, plan)"""
-    parts = ["CR", "f:%s:%s" % (start_model.get("cur", "-"), start_model.get("old", "-"))]
+    parts = ["CR", "f:%s:%s:%s" % (start_model.get("cur", "-"), start_model.get("old", "-"), start_model.get("tmp", "-"))]
     for k, (sess, chunking, plan) in enumerate(sessions):
         if k:
             parts.append("/")
@@ -248,7 +264,7 @@ def model_line(start_model, sessions):
 def observe(files, refs_by_ver):
     """describe the directory against the reference bytes: 'v.b.t' like the model, or '?' when no version matches"""
     out = {}
-    for k in ("cur", "old"):
+    for k in ("cur", "old", "tmp"):
         data = files[k]
         if data is None:
             out[k] = "-"
@@ -261,7 +277,7 @@ def observe(files, refs_by_ver):
 def match_model(obs, mfs, refs_by_ver):
     """mfs = 'cur:v.b.t old:-' from the model"""
     m = dict(x.split(":") for x in mfs.split())
-    for k in ("cur", "old"):
+    for k in ("cur", "old", "tmp"):
         if m[k] == "-" or obs[k] == "-":
             if m[k] != obs[k]:
                 return False
@@ -349,9 +365,10 @@ def run_case(run, model, vsim, d, case, quick):
         rcm, mout, em = V.run_lines(model, [model_line(cur_model, [(sess, chunkings[k], plan)])])
         mp = (mout[0] if mout else "").strip()
         mparts.append(mp)
-        mm = re.match(r"results=(\S*) trace=(\S*) (cur:\S+ old:\S+) safe=(\w+) reg=(\S+)", mp)
+        mm = re.match(r"results=(\S*) trace=(\S*) (cur:\S+ old:\S+ tmp:\S+) safe=(\w+) reg=(\S+)", mp)
         desc = {"trace": trace_str(rel), "results": res, "cur": obs["cur"] if obs["cur"] == "-" else list(obs["cur"]),
-                "old": obs["old"] if obs["old"] == "-" else list(obs["old"]), "rc": rc, "partial_results": list(LAST_PARTIAL[0])}
+                "old": obs["old"] if obs["old"] == "-" else list(obs["old"]),
+                "tmp": obs["tmp"] if obs["tmp"] == "-" else list(obs["tmp"]), "rc": rc, "partial_results": list(LAST_PARTIAL[0])}
         impl_desc.append(desc)
         # oracle on the implementation alone: a save that says ok has left the complete new state under the name
         if res and res[-1] == "ok":
@@ -375,10 +392,10 @@ def run_case(run, model, vsim, d, case, quick):
             if ex:
                 itrace = mm.group(2)
                 if ex.group(1):
-                    mcur = dict(x.split(":") for x in mfs.split())["cur"]
-                    if mcur != "-":
-                        v_, b_, t_ = map(int, mcur.split("."))
-                        mfs = mfs.replace("cur:" + mcur, "cur:%d.%d.%d" % (v_, b_ + int(ex.group(1)), t_))
+                    mtmp = dict(x.split(":") for x in mfs.split())["tmp"]
+                    if mtmp != "-":
+                        v_, b_, t_ = map(int, mtmp.split("."))
+                        mfs = mfs.replace("tmp:" + mtmp, "tmp:%d.%d.%d" % (v_, b_ + int(ex.group(1)), t_))
         cur_model = dict(x.split(":") for x in mfs.split())
         same = (itrace == mm.group(2)) and match_model(obs, mfs, refs_by_ver)
         if res is None:
@@ -437,7 +454,7 @@ def run_crash(run, model, vsim, quick):
     small = {"first": 0, "pre": 3, "saves": ["text", "text", "binary", "text"]}
     large = {"first": 0, "pre": 150, "saves": ["text", "binary", "text"]}
     cases = []
-    # 1. one process, death before every file system call of every save (theorem C11_crash_consistent_one_process)
+    # 1. one process, death before every file system call of every save
     for label, sess in (("small", small), ("large", large)):
         refs, chunking, rel = reference(vsim, d, sess)
         n = len(rel)
@@ -457,27 +474,40 @@ def run_crash(run, model, vsim, quick):
         cases.append({"kind": "single-error", "label": "large:err@%d" % k, "sessions": [(large, ["o"] * k + ["e"])]})
     for k in range(0, 9):
         cases.append({"kind": "single-error", "label": "small:err@%d" % k, "sessions": [(small, ["o"] * k + ["e"])]})
-    # 3. the _refuted witnesses of Properties_C11.v, replayed on the real code
+    # 3. the witnesses that refuted the in-place protocol (Example C11_example_former_witnesses), replayed on the real
+    # code.  Plans are positions in the syscall sequence, so each history is given twice: placed for the temporary-file
+    # protocol (U,B,O,W,C,A,[R,]T per small save) and placed for a tree that writes in place (A,[R,]O,W,C): on the other
+    # kind of tree the same plan is just one more fault plan that has to be survived.
     s12 = {"first": 0, "pre": 3, "saves": ["text", "text"]}
     s3 = {"first": 1000, "pre": 2, "saves": ["text"]}
-    cases.append({"kind": "witness", "label": "C11_crash_consistent_refuted:kill-in-save-2,restart,kill-after-rename",
-                  "sessions": [(s12, ["o"] * 7 + ["k0"]), (s3, ["o", "o", "k0"])]})
     s123 = {"first": 0, "pre": 3, "saves": ["text", "text", "text"]}
-    cases.append({"kind": "witness", "label": "C11_error_tolerant_continuing_refuted:ENOSPC-in-the-last-write-of-save-2,save-3-killed-after-its-rename",
+    cases.append({"kind": "witness", "label": "crash-restart-crash:kill-in-the-write-of-save-2,restart,kill-between-the-two-renames",
+                  "sessions": [(s12, ["o"] * 10 + ["k0"]), (s3, ["o"] * 7 + ["k0"])]})
+    cases.append({"kind": "witness", "label": "crash-restart-crash(in-place positions):kill-in-save-2,restart,kill-after-rename",
+                  "sessions": [(s12, ["o"] * 7 + ["k0"]), (s3, ["o", "o", "k0"])]})
+    cases.append({"kind": "witness", "label": "save-after-reported-error:ENOSPC-in-the-last-write-of-save-2,save-3-killed-between-its-renames",
+                  "sessions": [(s123, ["o"] * 10 + ["e"] + ["o"] * 8 + ["k0"])]})
+    cases.append({"kind": "witness", "label": "save-after-reported-error(in-place positions):ENOSPC-in-the-last-write-of-save-2,save-3-killed-after-its-rename",
                   "sessions": [(s123, ["o"] * 7 + ["e", "o", "o", "o", "k0"])]})
-    # the two former witnesses of ignored error returns (repaired by fix: commits; must stay safe)
-    cases.append({"kind": "witness", "label": "rename-error-in-save-2,kill-in-the-write-that-follows",
+    # the former witnesses of ignored error returns (repaired in round 1; must stay safe)
+    cases.append({"kind": "witness", "label": "rename-error-in-save-2,kill-three-calls-later",
                   "sessions": [(s123, ["o"] * 5 + ["e", "o", "o", "k0"])]})
-    # (on a tree where the failed rename is ignored the next two calls are the open and the write of the same save;
-    # on the repaired tree they are the access and the rename of save 3: two faults on rename, skipped as unrealisable)
     cases.append({"kind": "witness", "label": "rename-error-in-save-2,kill-two-calls-later",
                   "sessions": [(s123, ["o"] * 5 + ["e", "o", "k0"])]})
+    cases.append({"kind": "witness", "label": "backup-rename-error-in-save-2,kill-in-the-write-of-save-3",
+                  "sessions": [(s123, ["o"] * 13 + ["e", "o", "o", "o", "k0"])]})
     cases.append({"kind": "witness", "label": "ENOSPC-in-the-last-write-of-save-2,no-further-save,kill-free",
+                  "sessions": [(s12, ["o"] * 10 + ["e"])]})
+    cases.append({"kind": "witness", "label": "ENOSPC-in-the-last-write-of-save-2(in-place positions),no-further-save,kill-free",
                   "sessions": [(s12, ["o"] * 7 + ["e"])]})
+    # every error return and every kill position in the install phase of the second save (A, R, T)
+    for k in (12, 13, 14):
+        for f in ("e", "k0"):
+            cases.append({"kind": "install-fault", "label": "small:install:%s@%d" % (f, k), "sessions": [(s123, ["o"] * k + [f])]})
     # 4. random two-fault plans over two processes
-    for j in range(6 if quick else 80):
-        p1 = ["o"] * r.randint(4, 12) + [r.choice(["k0", "e"])]
-        p2 = ["o"] * r.randint(0, 5) + [r.choice(["k0", "e", "k0"])]
+    for j in range(8 if quick else 100):
+        p1 = ["o"] * r.randint(4, 22) + [r.choice(["k0", "e"])]
+        p2 = ["o"] * r.randint(0, 9) + [r.choice(["k0", "e", "k0"])]
         sa = {"first": 0, "pre": r.choice([2, 150]), "saves": [r.choice(["text", "binary"]) for _ in range(3)]}
         sb = {"first": 2000, "pre": 2, "saves": [r.choice(["text", "binary"]) for _ in range(2)]}
         cases.append({"kind": "random-two-fault", "label": "random%d" % j, "sessions": [(sa, p1), (sb, p2)]})
